@@ -103,6 +103,16 @@ pub fn run(tier: &str) -> Result<Report, String> {
             fs.extend(crate::formulas::pattern_condition_family(&ctx.user).into_iter().filter(loop_insensitive));
             fs
         };
+        // fragment operators over operands with TWO state variables (6..8 nodes)
+        let mut fs = fs;
+        if !restricted {
+            for t in [
+                "!{x}: 3{y}: AG ({x} | {y})", "!{x}: 3{y}: EF ({x} & EF {y})", "3{x}: V{y}: AG ({x} | EF {y})", "!{x}: V{y}: ({x} | AG (~{y} | {x}))", "3{x}: 3{y}: ({x} EU {y})", "!{x}: 3{y}: ({x} AW {y})",
+                "!{x}: 3{y}: AG (({x} | {y}) & (a | ~a))", "V{x}: 3{y}: (@{x}: AG ({x} | {y}))", "!{x}: 3{y}: (AG ({x} | {y}) & EF {y})", "3{x}: !{y}: AG (EF {x} | {y})",
+            ] {
+                fs.push(crate::formulas::f(t, &ctx.user));
+            }
+        }
         debug_assert!(no_steady || fs.iter().all(loop_insensitive));
         let bad: Vec<Violation> = fs
             .par_iter()
